@@ -154,6 +154,11 @@ instance (r : Rng) : Decidable (Valid r) := by unfold Valid; exact inferInstance
 
 def unbounded : Rng := (ninf, pinf)
 
+/-- element-wise membership of a list of values in a list of ranges -/
+inductive MemAll : List Int → List Rng → Prop
+  | nil : MemAll [] []
+  | cons {x : Int} {r : Rng} {xs : List Int} {rs : List Rng} : Mem x r → MemAll xs rs → MemAll (x :: xs) (r :: rs)
+
 /-! ## Part 1b: transfer functions, one per `_intbounds_impl`
 `none` = the implementation raises (always an AssertionError or a swallowed exception, see each function). -/
 
